@@ -266,4 +266,5 @@ CHECKS['C20'] = dict(
     jobs=_mode_jobs('MODE_STATUS', [9, 5], reach=('success', 'output-shown'), bounds='one invocation from the empty tree, -j in {1,2,3}, each command prints or not, every completion order') +
          _mode_jobs('MODE_STATUS', [9, 13], extra=['WITH_FAILURES'], suffix='_fail', reach=('failure',), bounds='the same with any subset of commands failing, -k in {1,2}') +
          _mode_jobs('MODE_STATUS', [12, 1], extra=['FROM_BUILT'], suffix='_built', reach=('success',), bounds='from a fully built tree after symbolic edits/deletions (restat pruning)') +
+         _mode_jobs('MODE_STATUS', [7], extra=['FROM_BUILT', 'NO_PRINTS'], suffix='_built_counters', reach=('success',), bounds='from a fully built tree after symbolic edits/deletions (dyndep additions), silent commands: counters only') +
          _mode_jobs('MODE_STATUS', [7], extra=['FROM_BUILT'], suffix='_built', reach=('success',), bounds='from a fully built tree after symbolic edits/deletions (dyndep additions)', thorough_only=True))
